@@ -16,7 +16,10 @@ ID = 'C20'
 TECHNIQUE = 'Lean 4 proof of a checker for an effect IR + AST translator + fault injection on the real code'
 LEAN_MODULES = ['PydlVerif.Props.C20']
 P = 'PydlVerif.C20.'
-THEOREMS = [P + 'restores_sound', P + 'other_vars_untouched', P + 'restores_only_touches']
+THEOREMS = [P + 'restores_sound', P + 'other_vars_untouched', P + 'restores_only_touches',
+            # round-5 extension: what the IR terms chosen for the newly read idioms do, for all states
+            P + 'pop_idiom_set', P + 'pop_idiom_unset', P + 'pop_default_idiom',
+            P + 'setdefault_idiom_set', P + 'setdefault_idiom_unset']
 GEN_MODULE = 'PydlVerif.Gen.C20Progs'
 GEN_NS = 'PydlVerif.Gen.C20.'
 PROGS = [
@@ -27,21 +30,33 @@ RULE = ('fault schedules: for each target function, each stub variant (rescore; 
         'dump file present x flux plots; missing file / missing fibre / unknown method) and each initial state of the touched '
         'variables (set / unset / set-but-empty, RUN2D and RUN1D independently; PHOTO_RESOLVE set/unset): no fault, an '
         'exception raised at the k-th LINE event of the monitored frames (target + everything inlined into it) for every k '
-        'that maps to a fault point of the IR outside restore code, and at the k-th collaborator call for every k; exception '
+        'that maps to a fault point of the IR outside restore code (restore code = recognised syntactically on the source, '
+        'also when the translation failed: in a finally / __exit__ / after the yield of a context-manager generator / in a '
+        'helper called from there, the statements that only touch os.environ and locals and the heads around them; plus '
+        'the restore statements of the IR), and at the k-th collaborator call for every k; exception '
         'classes InjectedFault plus those named by the except clauses; two-call sequences (first call failing at a sampled '
         'point, variables changed in between). The module is re-executed before every plan / sequence. '
         'Non-trivial = the call reaches the first environment write or fails; distinct = distinct (function, variant, initial '
         'state, injection | sequence) payloads')
-TRUSTED = ['AST translator harness/xlate/c20_envir.py (about 900 lines of Python): which constructs are environment effects, '
-           'which may raise, how same-module helpers / context managers are inlined and their parameters and return values bound; '
-           'validated on every run by comparing the IR semantics with the real function under every injected fault and by 32 '
-           'snippets with known verdict',
+TRUSTED = ['AST translator harness/xlate/c20_envir.py (about 2000 lines of Python incl. the restore-code recogniser): which constructs are environment effects '
+           '(os.environ[..], .get, os.getenv, del, .pop with and without default, .setdefault, .update of a literal mapping / '
+           'keywords / a known dict of saved values), which may raise, how same-module helpers / context managers are inlined '
+           'and their parameters and return values bound, how module-level constants (names bound once, in the whole file, to a '
+           'string or a tuple / list of strings; namedtuple types) and structured snapshots (list / dict displays and '
+           'comprehensions, dict(), namedtuple instances, tuple unpacking; loops over them, over .items() / .keys() / .values() / '
+           'sorted() / reversed() are unrolled) are resolved; validated on every run by comparing the IR semantics with the real '
+           'function under every injected fault and by 75 snippets with known verdict (accept / reject / refuse)',
+           'syntactic recogniser of restore code (RestoreScan in the same file, 6 snippets with exactly known restore lines): '
+           'decides where the fault injector must not raise; errs on the side of not injecting inside finally / __exit__ blocks',
+           'a module-level constant is not rebound or mutated from another module (the translator sees one file)',
            'IR semantics claim: code outside the translated functions (and their inlined callees) does not write os.environ; '
            'checked syntactically by a census of os.environ writers in the package',
            'sys.monitoring LINE-event injection and unittest.mock stubs stand for failures of collaborators']
 ASSUMPTIONS = ['asynchronous exceptions (KeyboardInterrupt, MemoryError between two bytecodes of a restore statement, of an '
                '__exit__ that only restores, of a helper that only reads/writes os.environ) are outside the statement, and so is '
-               'a failure of the restoration code itself (evaluating the saved value it assigns back)',
+               'a failure of the restoration code itself (evaluating the saved value it assigns back, iterating over / '
+               'indexing the local snapshot, testing a saved value) - such statements are never fault-injected, whether or not '
+               'the translation to the IR succeeded; a collaborator call inside a finally / __exit__ is injected',
                'os.environ is only reached as os.environ / from os import environ; no aliasing of the mapping, no os.putenv',
                'names (os, None, builtins) are not rebound; reading a local name or a constant, an identity test and the truth '
                'value of a saved string/None cannot raise',
@@ -53,17 +68,26 @@ LEVEL_TEXT = ('Machine-checked Lean 4 theorem restores_sound: every program of t
               'other_vars_untouched / restores_only_touches: nothing outside the declared variables is written. On every run '
               'the IR of window_score and of template_input is regenerated from the Python AST - same-module helpers and context '
               'managers (classes with __enter__/__exit__, @contextmanager generators) that touch os.environ are inlined with their '
-              'literal arguments and return values bound - and `restores <prog> <vars> = true` is re-proved by `decide`. The real '
+              'literal arguments and return values bound; os.environ.pop / setdefault / update, os.getenv, module-level tuples of '
+              'names, dict / list / namedtuple snapshots and loops over their items are read (pop_idiom_* / setdefault_idiom_* state '
+              'what the IR terms used for them do) - and `restores <prog> <vars> = true` is re-proved by `decide`. The real '
               'functions are run under exhaustive line-level and collaborator-level fault injection for every initial state '
               '(set / unset / empty) and in two-call sequences; os.environ before == after is checked directly, and the IR '
               'semantics is run under the same schedule and compared.')
 LEVEL_NOTE = ('Trusted / not proved: the translator (Python) and the reading of Python semantics built into it (what may raise, '
               'what writes the environment, inlining and binding rules) - sampled by the fault-injection correspondence and the '
-              'snippet self-test, not verified; callees outside the module are assumed not to write os.environ (syntactic census of '
+              'snippet self-tests, not verified; callees outside the module are assumed not to write os.environ (syntactic census of '
               'the package only); asynchronous exceptions, failures of the restore statements themselves and threads are out of '
-              'scope (exceptions are injected only at fault points of the IR outside restore code); break/continue, other '
-              'generators, return inside a generator-guarded block, escaping context-manager instances, nested functions touching '
-              'the environment, computed variable names are refused by the translator (failing obligation), not handled.')
+              'scope (exceptions are injected only at fault points of the IR outside restore code, and never at a line that the '
+              'syntactic recogniser classifies as restore code - so a failed or partial translation of a harmless change ends as a '
+              'broken obligation without a claimed failing input); break/continue, other generators, return inside a '
+              'generator-guarded block, escaping context-manager instances, nested functions touching the environment, computed '
+              'variable names, full snapshots (dict(os.environ) / os.environ.copy() restored with clear() + update(): no finite '
+              'list of touched variables), os.environ.update with an unknown mapping, snapshots built by mutating a dict entry by '
+              'entry, mutable snapshots that are modified or escape, module constants rebound anywhere in the file are refused by '
+              'the translator (failing obligation), not handled. Checker incompleteness (harmless code rejected, never the '
+              'reverse): a restore that only re-assigns when the saved value is not None and relies on the variable still being '
+              'unset otherwise is rejected unless the None branch pops.')
 
 
 # ---------------------------------------------------------------- translation + obligations
@@ -204,6 +228,9 @@ def model_check(ctx, progs):
             ctx.notes.append('%s: checker rejects; analysis at normal exit %s, when an exception leaves %s, when a return '
                              'leaves %s, writes %s' % (p['name'], json.dumps(o['normal']), json.dumps(o['raised']),
                                                       json.dumps(o['returned']), sorted(set(o['writes']))))
+        idx = Index(p)
+        ctx.count('restore-lines:%s:syntactic' % p['name'], idx.syntactic)
+        ctx.count('restore-lines:%s:with-ir-restore-points' % p['name'], len(idx.no_inject))
         ctx.count('ir:%s:nodes' % p['name'], sum(1 for _ in X.walk_ir(p['ir'])))
         ctx.count('ir:%s:fault-points' % p['name'], sum(1 for n in X.walk_ir(p['ir']) if n[0] == 'fault'))
 
@@ -219,6 +246,26 @@ class Index:
         self.faults = [(i, m) for i, m in sorted(self.meta.items()) if m['kind'] == 'fault' and i in self.present]
         self.vars = sorted({n[2] if n[0] in ('save', 'load') else n[1] for n in X.walk_ir(p['ir'])
                             if n[0] in ('need', 'save', 'load', 'del', 'pop', 'setExpr', 'setFrom', 'ifSet')})
+        # restore code, as (function, line) pairs: recognised syntactically on the source (works without an IR, or
+        # with a partial one), plus the lines of the IR's fault points that belong to restore statements
+        if '_restore_lines' not in p:
+            p['_restore_lines'] = frozenset(X.restore_lines(p['tr']))
+        self.no_inject = set(p['_restore_lines'])
+        self.syntactic = len(self.no_inject)
+        for i, m in self.faults:
+            if m.get('restore'):
+                self.no_inject |= {(m['func'], l) for l in range(m['line'], m['end'] + 1)}
+        self.no_inject = frozenset(self.no_inject)
+
+    def injectable(self, ev, k):
+        """'inject' | 'restore' | 'nofault' for the k-th LINE event of a fault-free run"""
+        func, line = ev[k]
+        if (func, line) in self.no_inject:
+            return 'restore'
+        f = self.fault_for(ev, {'func': func, 'line': line, 'at': k})
+        if f is None:
+            return 'nofault'
+        return 'restore' if self.meta[f].get('restore') else 'inject'
 
     def fault_ids(self, func, line):
         """ids of the innermost fault-carrying statement whose source span contains the line"""
@@ -403,7 +450,9 @@ class Stream:
         case = {'func': p['func'], 'variant': variant, 'init': init, 'inject': inject}
         if getattr(self, 'history', None):
             case = {'func': p['func'], 'seq': self.history + [case]}
-        res, run = R.run_case(p['func'], variant, init, inject, ctx.tmpdir())
+        res, run = R.run_case(p['func'], variant, init, inject, ctx.tmpdir(), forbidden=self.idx.no_inject)
+        if res.get('suppressed'):
+            ctx.count('%s:injection-suppressed(event drifted into restore code)' % p['func'])
         nontrivial = res['outcome'] != 'ok' or res['n_events'] > 3
         ctx.seen(case, nontrivial)
         ctx.count('%s:%s:%s' % (p['func'], (inject or {}).get('mode', 'nofault'), res['outcome'].split(':')[0]))
@@ -460,11 +509,13 @@ class Stream:
         points = []
         skipped = restore = 0
         for k, (func, line) in enumerate(run0.events):
-            f = self.idx.fault_for(run0.events, {'func': func, 'line': line, 'at': k})
-            if f is None:
+            what = self.idx.injectable(run0.events, k)
+            if what == 'nofault':
                 skipped += 1                      # nothing on this line can raise (pure environment idiom, constant, ...)
-            elif self.idx.meta[f].get('restore'):
-                restore += 1                      # the fault point is part of a restore statement / pure-env helper
+            elif what == 'restore':
+                restore += 1                      # restore code: syntactically (finally / __exit__ / after the yield:
+                #                                   statements that only touch os.environ and locals, the heads around
+                #                                   them), or a restore statement / pure-env helper of the IR
             else:
                 points.append({'mode': 'line', 'k': k, 'at': [func, line]})
         ctx.count('%s:line-events-without-fault-point(not injected)' % self.p['func'], skipped)
@@ -586,8 +637,7 @@ def sequences(ctx, progs):
             res0, run0 = st.one(variant, state('set'), None)
             points = [None]
             for k, (func, line) in enumerate(run0.events):
-                f = st.idx.fault_for(run0.events, {'func': func, 'line': line, 'at': k})
-                if f is not None and not st.idx.meta[f].get('restore'):
+                if st.idx.injectable(run0.events, k) == 'inject':
                     points.append({'mode': 'line', 'k': k, 'exc': 'InjectedFault'})
             points += [{'mode': 'call', 'k': k, 'exc': 'InjectedFault'} for k in range(len(run0.calls))]
             budget = ctx.n(10, 60) if p['func'] == 'window_score' else ctx.n(5, 24)
